@@ -25,10 +25,16 @@ def explore_program(program, config, check, max_execs=200000, nontrivial=None):
     res = {"executions": 0, "classes": set(), "nontrivial_classes": set(), "violations": [],
            "max_points": 0, "capped": False, "deadlocks": 0, "replay_checks": 0}
     build = dsl.build(program)
-    stack = [()]
+    # priority queue ordered by the number of non-default decisions (deviations): if the
+    # execution cap is hit, everything with fewer deviations has been covered completely
+    import heapq
+
+    stack = [(0, 0, ())]
+    counter = 1
+    res["deviations_completed"] = None
     first = True
     while stack:
-        prefix = stack.pop()
+        ndev, _, prefix = heapq.heappop(stack)
         ex = execute(build, prefix, **config)
         res["executions"] += 1
         if first:
@@ -66,12 +72,18 @@ def explore_program(program, config, check, max_execs=200000, nontrivial=None):
         tr = ex.trace
         res["max_points"] = max(res["max_points"], len(tr))
         base = [t[0] for t in tr]
-        for i in range(len(tr) - 1, len(prefix) - 1, -1):
+        dev_before = [0]
+        for c in base:
+            dev_before.append(dev_before[-1] + (1 if c else 0))
+        for i in range(len(prefix), len(tr)):
             n = tr[i][1]
             for alt in range(1, n):
-                stack.append(tuple(base[:i]) + (alt,))
+                heapq.heappush(stack, (dev_before[i] + 1, counter, tuple(base[:i]) + (alt,)))
+                counter += 1
         if res["executions"] >= max_execs:
             res["capped"] = bool(stack)
+            if stack:
+                res["deviations_completed"] = stack[0][0] - 1
             break
     return res
 
